@@ -91,7 +91,7 @@ pub fn c02(ctx: &Ctx, subj: &dyn DynSubject, ty: &Ty, rep: &mut Report) {
         }
         log.sample = Some(sample_json(subj, v, Some(&bytes), json!({"max_unit": l})));
         // (a) page-aligned placement
-        let pa = Placed::new(&bytes, 4096, 0);
+        let pa = Placed::new(&bytes, 16384, 0);
         let a = eps_check(subj, pa.bytes(), v, "page-aligned buffer")?;
         // (b) odd multiple of the largest unit
         let pb = Placed::new(&bytes, 2 * l2, l2);
